@@ -72,10 +72,23 @@ def is_const(v):
     return v[0] in ("int", "bool", "const", "unit")
 
 
+_MAXD = [7]
+
+
+def fstr(v):
+    """vstr without depth truncation (for structural string tests)."""
+    old = _MAXD[0]
+    _MAXD[0] = 60
+    try:
+        return vstr(v)
+    finally:
+        _MAXD[0] = old
+
+
 def vstr(v, d=0):
     if not isinstance(v, tuple) or not v:
         return str(v)
-    if d > 7:
+    if d > _MAXD[0]:
         return "…"
     k = v[0]
     if k in ("int", "bool"):
